@@ -395,7 +395,7 @@ def match_known(prop, known, case, ires, v):
     for e in known:
         if e.get('kind') != 'finding' or e.get('property') != prop.ID:
             continue
-        if e.get('class') and e['class'] == v.get('class'):
+        if (e.get('class') and e['class'] == v.get('class')) or v.get('class') in e.get('classes', []):
             return e['id']
     return None
 
